@@ -100,6 +100,11 @@ func GetBox(txData []byte) (*Box, error) {
 	if err != nil {
 		return nil, err
 	}
+	for _, subTx := range box.SubTxList {
+		if subTx == nil { // JSON null in the list
+			return nil, ErrNilBoxSubTx
+		}
+	}
 	return box, nil
 }
 
